@@ -9,9 +9,9 @@
    (d) the variant of the period-stepping loop and the guard that makes it apply.
    Property theorems only. *)
 From Coq Require Import String.
-From LedgerV Require Import Base.Prelude Base.Round Model.Amount Model.Buffers Model.Nesting Model.Stepping Model.FormatRef Model.Aliases Model.Selection
-  Gen.BufferSites Gen.SafetyGuards
-  Proofs.BuffersProofs Proofs.NestingProofs Proofs.DivGuardProofs Proofs.SteppingProofs Proofs.FormatRefProofs Proofs.AliasesProofs Proofs.SelectionProofs.
+From LedgerV Require Import Base.Prelude Base.Round Model.Amount Model.Buffers Model.Nesting Model.Stepping Model.FormatRef Model.Aliases Model.Selection Model.Recursion
+  Gen.BufferSites Gen.SafetyGuards Gen.DepthEdges
+  Proofs.BuffersProofs Proofs.NestingProofs Proofs.DivGuardProofs Proofs.SteppingProofs Proofs.FormatRefProofs Proofs.AliasesProofs Proofs.SelectionProofs Proofs.RecursionProofs.
 Import List.
 Local Open Scope Z_scope.
 
@@ -329,6 +329,55 @@ Theorem uuid_compare_unguarded_reads_past_end :
   forall (A : Type) (this other : list A), (length other < length this)%nat -> uuid_compare false this other = ReadPastEnd.
 Proof. exact @uuid_compare_unguarded_reads_past. Qed.
 Print Assumptions uuid_compare_unguarded_reads_past_end.
+
+(* ================= (h) the recursion depth of the evaluator ================= *)
+
+(* every place where the evaluator re-enters calc / compile, or builds the call scope through
+   which the arguments of a call are evaluated later, hands the recursion depth on (list
+   regenerated from the source; the only edge without a depth is the top-level entry
+   expr_t::real_calc).  A call_scope_t built as (scope, locus) instead of (scope, locus,
+   depth + 1), or a calc() called without its depth, makes this fail. *)
+Theorem recursion_edges_hand_the_depth_on :
+  forallb (fun e => snd e || String.eqb (fst e) "expr.cc:real_calc:calc#1") src_depth_edges = true.
+Proof. vm_compute. reflexivity. Qed.
+Print Assumptions recursion_edges_hand_the_depth_on.
+
+(* then no chain of nested evaluations puts more than MAX_DEPTH + 1 frames of calc on the stack,
+   and every longer chain is cut by the guard *)
+Theorem evaluation_depth_bounded :
+  exists L, src_calc_depth_limit = Some L /\ 0 <= L /\
+    forall es, Forall (fun e => e = Propagate) es ->
+      match descend L es 0 0 with Cut k | Deeper k => Z.of_nat k <= L + 1 end /\
+      (L + 1 < Z.of_nat (length es) -> exists k, descend L es 0 0 = Cut k).
+Proof.
+  destruct src_calc_depth_limit as [L|] eqn:E; [|discriminate].
+  exists L. split; [reflexivity|]. assert (HL : 0 <= L) by (injection E as <-; lia).
+  split; [exact HL|]. intros es Hall. split.
+  - pose proof (descend_propagating_bounded L es 0 0 Hall ltac:(lia)) as H.
+    destruct (descend L es 0 0); cbn in H; lia.
+  - intros Hlen. apply descend_propagating_cut; try assumption; lia.
+Qed.
+Print Assumptions evaluation_depth_bounded.
+
+(* one edge that starts again at depth 0 loses the bound: a recursion cycle of any period up to the
+   limit that passes through it is followed for ever *)
+Theorem reset_edge_recursion_unbounded :
+  forall L p, 0 <= L -> Z.of_nat p <= L ->
+    forall k n, descend L (cycles p k) 0 n = Deeper (n + k * S p).
+Proof. intros L p HL Hp. exact (descend_cycles_unbounded L p HL Hp). Qed.
+Print Assumptions reset_edge_recursion_unbounded.
+
+(* the depth limit does not cut any expression the parser accepts: an expression of T tokens is at
+   most T / 2 levels deep (an operator or a pair of parentheses per level) *)
+Theorem depth_limit_admits_every_parsed_expression :
+  exists L T, src_calc_depth_limit = Some L /\ src_expr_token_limit = Some T /\ T <= 2 * L.
+Proof.
+  destruct src_calc_depth_limit as [L|] eqn:E1; [|discriminate].
+  destruct src_expr_token_limit as [T|] eqn:E2; [|discriminate].
+  exists L, T. split; [reflexivity|]. split; [reflexivity|].
+  injection E1 as <-. injection E2 as <-. lia.
+Qed.
+Print Assumptions depth_limit_admits_every_parsed_expression.
 
 (* ================= the guards the theorems rely on are in the source ================= *)
 Theorem source_guards_present :
